@@ -99,6 +99,9 @@ func (t *task) Start() {
 	b := t.sc.buf()
 	t.starts.Add(1)
 	b.Emit(ev{E: "task.start", T: t.id})
+	if t.gated {
+		<-t.release // a pinned task: runs until the scenario lets it go (and may then panic)
+	}
 	if t.panicV != nil {
 		if t.together {
 			t.sc.barrier.Done()
@@ -107,9 +110,7 @@ func (t *task) Start() {
 		b.Emit(ev{E: "task.panic", T: t.id, V: tagOf(t.panicV)})
 		panic(t.panicV)
 	}
-	if t.gated {
-		<-t.release
-	} else if t.dur > 0 {
+	if !t.gated && t.dur > 0 {
 		time.Sleep(t.dur)
 	}
 	b.Emit(ev{E: "task.end", T: t.id})
@@ -140,6 +141,8 @@ type scenario struct {
 	cancelled    atomic.Bool
 	inPush       atomic.Int32
 	note         string
+	longTO       bool
+	extraWaiters int // further goroutines blocked in Wait() while the last tasks finish
 }
 
 func goid() int64 {
@@ -293,6 +296,8 @@ type result struct {
 	Note  string `json:"note"`
 	Evs   []any  `json:"evs"`
 	Twice []int  `json:"twice"` // tasks whose Start() ran more than once (counted by the task object itself)
+	// the push timeout of this scenario is far above any scheduling delay (2 s): a PushTask that timed out really found no taker
+	LongTO bool `json:"longto"`
 }
 
 var scenarioSeq atomic.Int32
@@ -339,6 +344,9 @@ func (s *scenario) finish(cancelFirst bool) result {
 		b.Emit(ev{E: "wait.end"})
 		close(done)
 	}()
+	for i := 0; i < s.extraWaiters; i++ {
+		go s.tl.Wait()
+	}
 	if !cancelFirst {
 		s.doCancel("finish")
 	}
@@ -361,7 +369,7 @@ func (s *scenario) finish(cancelFirst bool) result {
 	case <-time.After(3 * time.Second):
 	}
 	s.quiesce("final")
-	r := result{Kind: s.kind, N: s.n, Q: s.q, Note: s.note, Evs: s.log.Merge()}
+	r := result{Kind: s.kind, N: s.n, Q: s.q, Note: s.note, Evs: s.log.Merge(), LongTO: s.longTO}
 	for _, t := range all {
 		if t.starts.Load() > 1 {
 			r.Twice = append(r.Twice, t.id)
@@ -545,8 +553,30 @@ func runQuietBurst(rng *rand.Rand, n, q, per int) result {
 			}
 		}(p)
 	}
+	// Status() polled from two goroutines while the lane is saturated: only the largest PendingTask seen is recorded
+	var maxPend atomic.Int64
+	stopPoll := make(chan struct{})
+	var pollers sync.WaitGroup
+	for r := 0; r < 2; r++ {
+		pollers.Add(1)
+		go func() {
+			defer pollers.Done()
+			for {
+				select {
+				case <-stopPoll:
+					return
+				default:
+				}
+				p := int64(s.tl.Status().PendingTask)
+				for cur := maxPend.Load(); p > cur && !maxPend.CompareAndSwap(cur, p); cur = maxPend.Load() {
+				}
+			}
+		}()
+	}
 	close(start)
 	wg.Wait()
+	close(stopPoll)
+	pollers.Wait()
 	// stable state: nothing left to do
 	for i := 0; i < 400; i++ {
 		c1 := takeCensus()
@@ -581,6 +611,7 @@ func runQuietBurst(rng *rand.Rand, n, q, per int) result {
 	for tag := range raised { // the panics that occurred (their per-task events were not recorded)
 		s.buf().Emit(ev{E: "task.panic", T: 0, V: tag})
 	}
+	s.buf().Emit(ev{E: "status.end", P: 95, Pend: int(maxPend.Load()), V: "nil"}) // the largest PendingTask any poll returned
 	s.buf().Emit(ev{E: "burst.summary", Pend: st.PendingTask, G: int(accepted.Load()), B: started, T: twice, V: tagOf(st.LastPanic)})
 	return s.finish(false)
 }
@@ -616,6 +647,10 @@ func runAtRest(rng *rand.Rand, n, q, pin int, oneLane bool) result {
 	s := newScenario("atrest", n, q, context.Background(), nil)
 	s.tl.SetTimeout(15 * time.Millisecond)
 	s.note = fmt.Sprintf("n=%d q=%d pinned=%d oneLane=%v", n, q, pin, oneLane)
+	if pin < n { // an idle worker exists throughout: no push may time out, however long it is allowed to wait
+		s.tl.SetTimeout(2 * time.Second)
+		s.longTO = true
+	}
 	for i := 0; i < pin; i++ {
 		lane := 0
 		if !oneLane {
@@ -673,6 +708,21 @@ func runAllBusy(rng *rand.Rand, n, q, stuck int, order []int) result {
 	return s.finish(false)
 }
 
+// the lane is cancelled while every worker runs a task, Wait is already blocked (several callers), every other
+// goroutine of the lane is gone - and then the last running tasks panic.
+func runLastPanic(rng *rand.Rand, n int) result {
+	s := newScenario("lastpanic", n, 0, context.Background(), nil)
+	s.tl.SetTimeout(15 * time.Millisecond)
+	s.note = fmt.Sprintf("n=%d: cancelled with %d tasks running, Wait blocked, then the tasks panic", n, n)
+	perm := rng.Perm(len(panicVals))
+	for i := 0; i < n; i++ {
+		s.push(1, s.mkTask(0, true, panicVals[perm[i%len(perm)]]), i)
+	}
+	s.quiesce("pin")
+	s.extraWaiters = 3
+	return s.finish(true)
+}
+
 func runPanics(rng *rand.Rand) result {
 	n, q := 2+rng.Intn(2), 1+rng.Intn(2)
 	bar := &sync.WaitGroup{}
@@ -726,6 +776,7 @@ func main() {
 	natrest := flag.Int("atrest", 1, "repetitions of the systematic at-rest / all-busy families")
 	npanics := flag.Int("panics", 6, "")
 	ntimeouts := flag.Int("timeouts", 4, "")
+	nlast := flag.Int("lastpanic", 10, "")
 	nburst := flag.Int("burst", 4, "")
 	burstPer := flag.Int("burstper", 60, "tasks per producer in a burst scenario")
 	flag.Parse()
@@ -749,7 +800,8 @@ func main() {
 				for _, pin := range []int{0, n - 1, n} {
 					w.Put(runAtRest(rng, n, q, pin, (n+q+pin+rep)%2 == 0))
 				}
-				w.Put(runAtRest(rng, n, q, n, false)) // every worker pinned and every lane filled to the brim: the upper bound of PendingTask
+				w.Put(runAtRest(rng, n, q, n-1, true)) // everything goes to lane 0 whose worker is busy: the one idle worker must take over
+				w.Put(runAtRest(rng, n, q, n, false))  // every worker pinned and every lane filled to the brim: the upper bound of PendingTask
 			}
 		}
 		w.Put(runAtRest(rng, 40, rep%2, 40, false)) // a wide lane (more than 32 workers), everything full
@@ -770,6 +822,10 @@ func main() {
 	for i := 0; i < *nburst; i++ {
 		w.Put(runBurst(rng, 4, i%2, *burstPer))
 		w.Put(runQuietBurst(rng, 4, i%3, 40**burstPer))
+		w.Put(runQuietBurst(rng, 1+i%2, i%2, 20**burstPer)) // the tightest bound: one or two lanes, little or no buffer
+	}
+	for i := 0; i < *nlast; i++ {
+		w.Put(runLastPanic(rng, 1+i%2))
 	}
 	for i := 0; i < *ntimeouts; i++ {
 		w.Put(runTimeouts(rng, 1+i%2, 1+i%2))
